@@ -21,7 +21,7 @@ import tv
 import ix_tables
 
 PREFIXES = ['C20.']
-CYC_THR = {'amp_fraction_threshold': .2, 'amp_consistency_threshold': .4, 'period_consistency_threshold': .4, 'monotonicity_threshold': .6}
+CYC_THR = {'amp_fraction_threshold': .2, 'amp_consistency_threshold': .4, 'period_consistency_threshold': .5, 'monotonicity_threshold': .6}       # pairwise different: a mixed-up line shows
 AMP_THR = {'burst_fraction_threshold': .5}
 
 
@@ -47,8 +47,9 @@ def run_tv(ctx, n_tables, max_len=640):
     for c, df in tabs:
         df = df.drop(columns=['rowid'])
         method = c['opts']['burst_method']
-        thr = dict(CYC_THR if method == 'cycles' else AMP_THR)
-        thr['min_n_cycles'] = 2
+        base = list((CYC_THR if method == 'cycles' else AMP_THR).items())
+        at = [len(base), 0, len(base) // 2][(k // 3) % 3]        # min_n_cycles written last, first or in the middle of the dictionary
+        thr = dict(base[:at] + [('min_n_cycles', 2)] + base[at:])
         n = len(c['sig'])
         for (a, b) in windows_for(df, n, rng, k):
             ops = [('summary', {'interp': bool(k % 2), 'only_result': k % 5 == 0}), ('cyclepoints_df', {'plot_zerox': k % 3 != 0, 'plot_extrema': k % 4 != 1, 'plot_sig': k % 2 == 0}),
